@@ -29,6 +29,22 @@ def gen_strings(tier, seed):
     for _ in range(nsample):
         n = rnd.randint(maxlen_all + 1, 9)
         out.append("".join(rnd.choice(ALPHA) for _ in range(n)))
+    # digits glued to words that start like an exponent or a literal suffix; and everything over a small alphabet of its own
+    for num in ("0", "7", "12", "1.5", "2L", "1b", "3f", "10."):
+        for word in ("e", "E", "e+", "e-", "e;", "e+y", "E-w", "else", "echo", "extends", "ex", "e1", "e1f", "E2", "e+1", "e+1f", "e-2f", "f", "L", "b", "fe", "Le", "be", "e e", "e\n+1"):
+            for head in ("", "x ", "(", "\n"):
+                for tail in ("", " ", ";", "\nz"):
+                    out.append(head + num + word + tail)
+    alpha2 = ["e", "E", "1", "0", ".", "f", "+", "-", ";", "x", " ", "\n"]
+    for n in range(1, 5):
+        for tup in itertools.product(alpha2, repeat=n):
+            out.append("".join(tup))
+    # quotes, slashes and line breaks: comments inside literals, literals inside comments, literals that span lines
+    alpha3 = ['"', "/", "a", "\n", "'", " "]
+    for n in range(1, (6 if tier == "quick" else 7)):
+        for tup in itertools.product(alpha3, repeat=n):
+            out.append("".join(tup))
+    out += ['"a//b\nc" x', 'u = "http://h/p\n//q" + "r"; // t "u\nv', '"//"\n"//\n"//', "'/' '/'//'\n'/'", '"a\n//b\n" //c\n"d"']
     out += SEEDS
     ex = os.path.join(vlib.REPO, "examples")
     if os.path.isdir(ex):
